@@ -135,9 +135,6 @@ def run(rep, tier):
                        'returned ordering; no path returns None or panics. R-IMPLSHAPE: <,<=,>,>=,min,max,!= are core\'s provided methods over these. '
                        'Order laws follow from agreement with the order of the rationals.')
     rep.trust('rustc nightly MIR; absint transfer functions and callee models; core\'s provided comparison methods')
-    if tier == 'thorough':
-        try:
-            from . import c08_rkyv
-            c08_rkyv.run(rep)
-        except ImportError:
-            rep.assume('rkyv clause (archived comparisons) not analysed in this run')
+    # the rkyv clause (feature-gated impls) is part of the statement: analysed in both tiers (configuration rkyv)
+    from . import c08_rkyv
+    c08_rkyv.run(rep)
